@@ -1,4 +1,5 @@
 import ButlerModel.Model.ConfigKeys
+import ButlerModel.Gen.ConfigPy
 /-! # C18 — configuration keys: every reported name retrieves its value (algebraic core) -/
 namespace C18
 open ConfigKeys
@@ -239,3 +240,67 @@ example : paths (.dict [(['a'], .list [.leaf 1, .dict [(['b'], .leaf 2)]])]) =
     [[.s ['a']], [.s ['a'], .i 0], [.s ['a'], .i 1], [.s ['a'], .i 1, .s ['b']]] := by decide
 
 end C18
+
+/-! ### `Config._splitIntoKeys` as translated from the source on every run (`Gen/ConfigPy.lean`, `translate/gen_config.py`) -/
+namespace C18.Translated
+open ConfigKeys
+
+theorem isInfixB_escaped (d : Char) (s : Str) : isInfixB ['\\', d] s = hasEscaped d s := by
+  induction s with
+  | nil => simp [isInfixB, hasEscaped]
+  | cons a r ih =>
+    cases r with
+    | nil => simp [isInfixB, hasEscaped, List.isPrefixOf]
+    | cons b r' =>
+      simp only [isInfixB, hasEscaped] at ih ⊢
+      rw [ih]
+      simp only [List.isPrefixOf, Bool.and_true]
+      congr 1
+      rw [BEq.comm (a := '\\'), BEq.comm (a := d), Bool.and_comm]
+
+theorem isInfixB_doubled (d : Char) (s : Str) : isInfixB ['\\', '\\', d] s = hasDoubled d s := by
+  induction s with
+  | nil => simp [isInfixB, hasDoubled]
+  | cons a r ih =>
+    match r, ih with
+    | [], _ => simp [isInfixB, hasDoubled, List.isPrefixOf]
+    | [b], _ => simp [isInfixB, hasDoubled, List.isPrefixOf]
+    | b :: c :: r', ih =>
+      simp only [isInfixB, hasDoubled] at ih ⊢
+      rw [ih]
+      simp only [List.isPrefixOf, Bool.and_true]
+      congr 1
+      rw [BEq.comm (a := '\\') (b := a), BEq.comm (a := '\\') (b := b), BEq.comm (a := d)]
+      cases (a == '\\') <;> cases (b == '\\') <;> cases (c == d) <;> rfl
+
+theorem replaceSub_escaped (d : Char) : ∀ (s : Str), replaceSub ['\\', d] ['\r'] s = unescapeToTemp d s := by
+  intro s
+  fun_induction unescapeToTemp d s with
+  | case1 => simp [replaceSub]
+  | case2 a => rw [replaceSub]; simp [List.isPrefixOf, replaceSub]
+  | case3 a b r h ih =>
+    rw [replaceSub]
+    simp only [Bool.and_eq_true, beq_iff_eq] at h
+    obtain ⟨ha, hb⟩ := h
+    subst ha; subst hb
+    simp [List.isPrefixOf, ih]
+  | case4 a b r h ih =>
+    rw [replaceSub]
+    have hp : List.isPrefixOf ['\\', d] (a :: b :: r) = false := by
+      simp only [List.isPrefixOf, Bool.and_true]
+      rw [BEq.comm (a := '\\'), BEq.comm (a := d)]
+      simpa using h
+    simp [hp, ih]
+
+/-- **`Config._splitIntoKeys` (string keys) as translated from the source on every run is the model's `split`** — the function the
+round-trip theorems and refutations of this file are about. -/
+theorem translated_split (key : Str) : Gen.ConfigPy.splitIntoKeys key = split key := by
+  cases key with
+  | nil => rfl
+  | cons d rest =>
+    simp only [Gen.ConfigPy.splitIntoKeys, split, head, List.isEmpty_cons, List.headD_cons, List.tail_cons, Bool.false_eq_true, if_false,
+      isInfixB_escaped, isInfixB_doubled, replaceSub_escaped, Option.isSome_some, Option.isSome_none, if_true]
+    have hrc : replaceChar '\r' d = fun h => h.map fun c => if c == '\r' then d else c := rfl
+    cases isAlnum d <;> simp [hrc]
+
+end C18.Translated
